@@ -72,6 +72,21 @@ def run(ctx):
         steps += [{"op": "mktree", "path": "src", "tree": tc}, {"op": "backup", "opts": o_}, {"op": "arch"}]
         marks += [{"kind": "mktree", "tree": tc}, {"kind": "backup", "plan": None, "tree": tc, "snap_at": len(steps) - 3}, {"kind": "arch"}]
         cases.append({"id": f"pd{t}", "steps": steps, "marks": marks, "oracle_only": True})
+    # a delete whose removal of the version's directory is refused by the storage (or which is killed there): the version is
+    # still there, and still well-formed
+    for t in range(3 if quick else 12):
+        ta = {"k": "d", "mode": 0o755, "mtime": 10**18, "c": {f"f{i}": {"k": "f", "data": gen.rand_bytes(ctx.rng, 4).hex(), "mode": 0o644, "mtime": 10**18 + i}
+                                                              for i in range(ctx.rng.choice([5, 7, 9]))}}
+        tb, _ = gen.mutate_tree(ctx.rng, ta)
+        o_ = {"meph": ctx.rng.choice([2, 3]), "mbs": 64, "sfc": ctx.rng.choice([0, 16])}
+        b_ = t % 2
+        kindf = ["PermissionDenied", "Other", "crash"][t % 3]
+        steps = [{"op": "init"}, {"op": "mktree", "path": "src", "tree": ta}, {"op": "backup", "opts": o_},
+                 {"op": "mktree", "path": "src", "tree": tb}, {"op": "backup", "opts": o_},
+                 {"op": "delete", "bands": [b_], "plan": {"rules": [["RemoveDirAll", f"b{b_:04d}", 0, kindf]]}}, {"op": "arch"}]
+        marks = [{"kind": "init"}, {"kind": "mktree", "tree": ta}, {"kind": "backup", "plan": None, "tree": ta, "snap_at": 1},
+                 {"kind": "mktree", "tree": tb}, {"kind": "backup", "plan": None, "tree": tb, "snap_at": 3}, {"kind": "delete"}, {"kind": "arch"}]
+        cases.append({"id": f"fd{t}", "steps": steps, "marks": marks, "oracle_only": True})
     # a version with more index hunks than fit one index sub-directory (10000): the numbering carries on into i/00001/
     big = {"k": "d", "mode": 0o755, "mtime": 10**18, "c": {f"e{i:05d}": {"k": "f", "data": "", "mode": 0o644, "mtime": 10**18} for i in range(10040)}}
     steps = [{"op": "init"}, {"op": "mktree", "path": "src", "tree": big}, {"op": "backup", "opts": {"meph": 1, "mbs": 64, "sfc": 0}}, {"op": "arch"}]
